@@ -45,3 +45,20 @@ add("C06", "exploration", "property-based testing (proptest): generated backgrou
     "Search over generated backgrounds and samples on a fixed 441-term ontology with 90 records whose K spans 1..420 (both sides of the 170-entry factorial table); every (record, N, K, n, k) tuple is compared with the exact rational tail, fold change, count and record set; range and monotonicity in k exact.",
     "Exact tail from a Pascal triangle over u32-limb integers (about 100 lines, unit-tested against Python fractions); tolerance 1e-9 relative.",
     "DESIGN.md section 4, C06")
+
+add("C07", "exploration", "property-based testing (proptest): as_bytes/from_bytes round trip compared through the whole read API; differential against from_binary and Ontology::compare",
+    "Search over generated ontologies (long and multi-byte names around the 255-byte limit, obsolete/replaced terms, empty sections, records without terms, maximal ids) built through three public constructors; the reloaded ontology must be observationally identical up to the documented name limit, a second round trip a fixed point.",
+    "Name expectation: longest <=255-byte prefix on a char boundary; <=14 terms quick / 40 thorough.",
+    "DESIGN.md section 4, C07")
+add("C08", "fault_enumeration", "independent encoder + property-based generation (proptest); per file every truncation offset, a fixed set of extensions and all 254 unsupported version bytes are decoded",
+    "Exploration: files written by an encoder independent of the library's writer must decode to exactly the described ontology. Fault enumeration: for each generated file all prefixes, 8 extensions and every unsupported version byte are tried and must be rejected.",
+    "Own encoder implements the documented layout tables; files <= ~2 kB so all prefixes can be decoded; rejection = Err or documented panic.",
+    "DESIGN.md section 4, C08")
+add("C09", "exploration", "property-based testing (proptest): grammar-based rendering of the three JAX files with ignorable noise; three-way differential (reference model, binary loader, Builder API)",
+    "Search over generated fact sets rendered into hp.obo / phenotype.hpoa / genes_to_phenotype.txt / phenotype_to_genes.txt with noise that must be ignored (NOT rows, DECIPHER, comments, Typedef stanzas, extra tags and columns), loaded by both loaders and compared through the whole read API.",
+    "Input domain restricted to what the parser documents/expects (one blank line between stanzas, 'tag: value' lines, header line in gene files).",
+    "DESIGN.md section 4, C09")
+add("C19", "exploration", "property-based testing (proptest): generated standard-flavour ontologies vs classification computed on the reference closure; missing-root variants",
+    "Search over generated ontologies with several top-level branches, multi-category terms and missing roots through every construction path that applies defaults.",
+    "<=22 terms quick / 70 thorough.",
+    "DESIGN.md section 4, C19")
